@@ -39,13 +39,15 @@ def cases(draw):
     params = [(PN[k], (str(draw(st.integers(10, 19))) if k >= n - ndef else None)) for k in range(n)]
     star = draw(st.booleans()) and draw(st.booleans())
     kw = draw(st.booleans()) and draw(st.booleans())
+    # positional-only prefix (def f(a, b=1, /, c=2)): such cases keep to positional calls and to changers that leave the order alone
+    posonly = draw(st.integers(1, n)) if n and draw(st.integers(0, 4)) == 0 else 0
     # call sites
     ncalls = draw(st.integers(3, 8))
     calls = []
     star_shapes = draw(st.integers(0, 4)) == 0
     surplus = draw(st.integers(0, 3)) == 0
     for _ in range(ncalls):
-        shape = draw(st.sampled_from(["pos", "kw", "mixed", "omit", "pos"] + (["starseq", "starmap"] if star_shapes else [])))
+        shape = draw(st.sampled_from((["pos", "kw", "mixed", "omit", "pos"] + (["starseq", "starmap"] if star_shapes else [])) if not posonly else ["pos", "omit"]))
         args, kws = [], []
         stop = n
         if shape in ("omit", "kw", "mixed") and ndef and draw(st.booleans()):
@@ -76,6 +78,8 @@ def cases(draw):
         opts = ["normalize", "add"]
         if sig:
             opts += ["remove", "reorder", "reorder"]
+        if posonly:
+            opts = ["normalize"]
         if any(d is not None for _, d in sig):
             opts.append("inline_default")
         c = draw(st.sampled_from(opts))
@@ -120,7 +124,8 @@ def cases(draw):
             order = list(range(base)) + [base + k for k in perm]
             changers.append(["reorder", order, autodef])
             sig = [list(x) for x in new]
-    return {"kind": kind, "params": params, "star": star, "kw": kw, "calls": calls, "changers": changers}
+    # constructor variant: the class is nested in another class and a top-level class of the same simple name exists
+    return {"kind": kind, "params": params, "star": star, "kw": kw, "calls": calls, "changers": changers, "nested_class": draw(st.integers(0, 2)) == 0, "posonly": posonly}
 
 
 @st.composite
@@ -160,7 +165,10 @@ def strategy(tier):
 
 def render(case):
     kind = case["kind"]
-    ps = ", ".join(n if d is None else "%s=%s" % (n, d) for n, d in case["params"])
+    plist = [n if d is None else "%s=%s" % (n, d) for n, d in case["params"]]
+    if case.get("posonly"):
+        plist.insert(case["posonly"], "/")
+    ps = ", ".join(plist)
     extra = []
     if case["star"]:
         extra.append("*args")
@@ -174,6 +182,13 @@ def render(case):
     elif kind == "method":
         lib = "class Host:\n    def target(%s):\n        %s\n        return 1\nobj = Host()\n" % (", ".join([x for x in ["self", allp] if x]), body)
         callee_local, callee_q = "obj.target", "lib.obj.target"
+    elif case.get("nested_class"):
+        lib = (
+            "class Target:\n    def __init__(self, z=0):\n        print('OTHER', z)\n"
+            "class Outer:\n    class Target:\n        def __init__(%s):\n            %s\n" % (", ".join([x for x in ["self", allp] if x]), body)
+            + "print('o', Target(3) is not None, Target(z=4) is not None)\n"
+        )
+        callee_local, callee_q = "Outer.Target", "lib.Outer.Target"
     else:
         lib = "class Target:\n    def __init__(%s):\n        %s\n" % (", ".join([x for x in ["self", allp] if x]), body)
         callee_local, callee_q = "Target", "lib.Target"
@@ -199,7 +214,9 @@ def render(case):
         else:
             use_calls.append("print('r', %s%s is not None)" % (callee_local.replace("obj.", "obj."), text))
     lib += "\n".join(lib_calls) + ("\n" if lib_calls else "")
-    imp = "import lib\nfrom lib import %s\n" % ({"function": "target", "method": "obj", "constructor": "Target"}[kind])
+    imp = "import lib\nfrom lib import %s\n" % ({"function": "target", "method": "obj", "constructor": "Outer" if case.get("nested_class") else "Target"}[kind])
+    if kind == "constructor" and case.get("nested_class"):
+        imp += "print('o', lib.Target(5) is not None)\n"
     use = imp + "\n".join(use_calls) + ("\n" if use_calls else "")
     main = "import lib\nimport use\n"
     return {"lib.py": lib, "use.py": use, "main.py": main}
@@ -340,7 +357,7 @@ def evaluate(case, env):
     project = Project(root, ropefolder=None)
     try:
         lib = files["lib.py"]
-        off = lib.index("target(") if case["kind"] != "constructor" else lib.index("Target:")
+        off = lib.index("target(") if case["kind"] != "constructor" else (lib.index("    class Target:") + 10 if case.get("nested_class") else lib.index("Target:"))
         changers = []
         for ch in case["changers"]:
             if ch[0] == "normalize":
